@@ -66,6 +66,14 @@ pub struct ElfInfo {
     pub data_symbols: Vec<(String, u64, u64)>,
 }
 
+/// File address of the first text symbol whose (mangled) name satisfies `pred`; works for shared
+/// objects too (no `main` needed).
+pub fn text_symbol(file: &str, pred: impl Fn(&str) -> bool) -> Option<u64> {
+    let data = std::fs::read(file).ok()?;
+    let f = object::File::parse(&*data).ok()?;
+    f.symbols().find(|s| s.kind() == object::SymbolKind::Text && s.size() > 0 && s.name().map(|n| pred(n)).unwrap_or(false)).map(|s| s.address())
+}
+
 pub fn elf_info(exe: &str) -> Result<ElfInfo, String> {
     let data = std::fs::read(exe).map_err(|e| format!("{exe}: {e}"))?;
     let f = object::File::parse(&*data).map_err(|e| e.to_string())?;
